@@ -489,8 +489,16 @@ func (a *float32Array) get(idx int) Value {
 	return floatToValue(float64(*(a.ptr(idx))))
 }
 
+// getRaw is used to search for a value (indexOf, includes, etc.): -0 and +0 are the same value and so are all NaNs.
 func (a *float32Array) getRaw(idx int) uint64 {
-	return uint64(math.Float32bits(*(a.ptr(idx))))
+	f := *(a.ptr(idx))
+	if f == 0 {
+		return 0
+	}
+	if f != f {
+		return uint64(math.Float32bits(float32(math.NaN())))
+	}
+	return uint64(math.Float32bits(f))
 }
 
 func (a *float32Array) set(idx int, value Value) {
@@ -529,9 +537,13 @@ func (a *float32Array) swap(i, j int) {
 }
 
 func (a *float32Array) typeMatch(v Value) bool {
-	switch v.(type) {
-	case valueInt, valueFloat:
-		return true
+	// only a value that is exactly representable as float32 can be equal to an element
+	switch v := v.(type) {
+	case valueInt:
+		return float64(float32(v)) == float64(v)
+	case valueFloat:
+		f := float64(v)
+		return f != f || float64(float32(f)) == f
 	}
 	return false
 }
@@ -556,7 +568,14 @@ func (a *float64Array) get(idx int) Value {
 }
 
 func (a *float64Array) getRaw(idx int) uint64 {
-	return math.Float64bits(*(a.ptr(idx)))
+	f := *(a.ptr(idx))
+	if f == 0 {
+		return 0
+	}
+	if f != f {
+		return math.Float64bits(math.NaN())
+	}
+	return math.Float64bits(f)
 }
 
 func (a *float64Array) set(idx int, value Value) {
@@ -599,7 +618,7 @@ func (a *float64Array) exportType() reflect.Type {
 }
 
 func (a *bigInt64Array) toRaw(value Value) uint64 {
-	return toBigInt64(value).Uint64()
+	return uint64(toBigInt64(value).Int64())
 }
 
 func (a *bigInt64Array) ptr(idx int) *int64 {
@@ -646,8 +665,8 @@ func (a *bigInt64Array) swap(i, j int) {
 }
 
 func (a *bigInt64Array) typeMatch(v Value) bool {
-	if _, ok := v.(*valueBigInt); ok {
-		return true
+	if v, ok := v.(*valueBigInt); ok {
+		return (*big.Int)(v).IsInt64()
 	}
 	return false
 }
@@ -702,8 +721,8 @@ func (a *bigUint64Array) swap(i, j int) {
 }
 
 func (a *bigUint64Array) typeMatch(v Value) bool {
-	if _, ok := v.(*valueBigInt); ok {
-		return true
+	if v, ok := v.(*valueBigInt); ok {
+		return (*big.Int)(v).IsUint64()
 	}
 	return false
 }
